@@ -510,7 +510,10 @@ pub fn view(node: &Node, durable_only: bool) -> BTreeMap<String, String> {
         // velocity: compared as (limit, total) — a refused insert only re-expresses the same
         // history at a later epoch (proved in Props/C12), which is not a state change
         m.insert("node.velocity".into(), format!("{} {}", st.velocity_control.limit, st.velocity_control.velocity()));
-        m.insert("node.fee_velocity".into(), format!("{} {}", st.fee_velocity_control.limit, st.fee_velocity_control.velocity()));
+        if !durable_only {
+            // not one of the fields C11 lists; its durability for accepted requests is C12's fee group
+            m.insert("node.fee_velocity".into(), format!("{} {}", st.fee_velocity_control.limit, st.fee_velocity_control.velocity()));
+        }
         if !durable_only {
             let mut pays: Vec<String> = st.payments.iter().map(|(h, p)| format!("{}:{:?}", hex::encode(h.0), p)).collect();
             pays.sort();
